@@ -47,8 +47,11 @@ def show(rec):
         return "string.%s(%s, %s%s)" % (fn, s, p, ", %d" % i[1] if i[0] == "n" else "")
     if fn == "gmatch":
         return "string.gmatch(%s, %s)" % (s, p)
+    if fn == "gmatchiter":
+        return "A=string.gmatch(%s, %s) B=string.gmatch(%s, %s); %d x {A(%s) B(%s)}" % (
+            s, p, repr(b2s(rec["s2"])), p, rec["k"], *(("", "") if rec["mode"] == 0 else ("stA", "stB")))
     repl = rec["repl"]
-    r = repr(b2s(repl[1])) if repl[0] == "s" else ("<table %s>" if repl[0] == "t" else "<function over %s>") % json.dumps(repl[1])
+    r = repr(b2s(repl[1])) if repl[0] == "s" else str(repl[1]) if repl[0] == "n" else ("<table %s>" if repl[0] == "t" else "<function over %s>") % json.dumps(repl[1])
     n = rec.get("n") or ["nil"]
     return "string.gsub(%s, %s, %s%s)" % (s, p, r, ", %d" % n[1] if n[0] == "n" else "")
 
@@ -263,6 +266,8 @@ def gen_pattern(rng):
 
 def gen_repl(rng, subj):
     r = rng.random()
+    if r < 0.04:
+        return ["n", rng.randint(0, 120)]     # a number is accepted as the replacement string
     if r < 0.6:
         out = b""
         for _ in range(rng.randint(0, 4)):
@@ -303,7 +308,13 @@ def gen_cases(rng, n):
             pat = b""
         c = {"id": i + 1, "s": list(subj), "p": list(pat)}
         r = rng.random()
-        if r < 0.35:
+        if r < 0.06:
+            # the iterator driven by hand: two iterators stepped alternately, past exhaustion
+            c["fn"] = "gmatchiter"
+            c["s2"] = list(gen_pattern(rng)[1][:12]) if rng.random() < 0.6 else list(subj[::-1])
+            c["k"] = rng.randint(1, 6)
+            c["mode"] = rng.randint(0, 1)
+        elif r < 0.35:
             c["fn"] = "find"
         elif r < 0.55:
             c["fn"] = "match"
@@ -395,7 +406,7 @@ def report(verd, key, rec, origin, total=None):
         json.dumps(exp)[:160], " [%d such cases in %s]" % (total, origin) if total else " [%s]" % origin)
     if rec.get("feat"):
         what += " {pattern features: %s}" % rec["feat"]
-    case = {k: rec[k] for k in ("fn", "s", "p", "i", "repl", "n") if k in rec}
+    case = {k: rec[k] for k in ("fn", "s", "p", "i", "repl", "n", "s2", "k", "mode") if k in rec}
     verd.candidate(key, what, {"case": case, "observed": rec["o"], "reference": exp, "origin": origin,
                                "lua": show(rec)})
 
@@ -504,7 +515,7 @@ def random_direction(n, verd, stats, cov):
     kinds = {}
     for r in recs:
         kinds[r["fn"] + ":" + str(r["o"][0])] = kinds.get(r["fn"] + ":" + str(r["o"][0]), 0) + 1
-    nontrivial = sum(1 for r in recs if r["o"][0] == "m" or (r["o"][0] == "g" and r["o"][1]) or (r["o"][0] == "r" and r["o"][2] > 0))
+    nontrivial = sum(1 for r in recs if r["o"][0] in ("m", "i") or (r["o"][0] == "g" and r["o"][1]) or (r["o"][0] == "r" and r["o"][2] > 0))
     cov["random"] = {"cases": len(recs), "observed_outcomes": dict(sorted(kinds.items())),
                      "cases_where_real_code_matched": nontrivial, "rejected": len(rejected),
                      "rejected_by_key": {k: len(v) for k, v in sorted(bykey.items())}}
@@ -607,7 +618,7 @@ def selftest():
     corrupted = []
     for r in recs:
         o = r["o"]
-        if r["id"] in bad or o[0] not in ("m", "r", "g"):
+        if r["id"] in bad or o[0] not in ("m", "r", "g") or r["fn"] == "gmatchiter":
             continue
         c = json.loads(json.dumps(r))
         o = c["o"]
